@@ -473,7 +473,8 @@ def m10_run(carve):
     pipes = {
         "source": lambda t, u: t, "rename": lambda t, u: t >> pdt.rename({"a": "z"}), "rename_swap": lambda t, u: t >> pdt.rename({"a": "b", "b": "a"}), "select_reorder": lambda t, u: t >> pdt.select(t.c, t.a),
         "mutate_overwrite": lambda t, u: t >> pdt.mutate(a=t.a * 2, d=t.a), "join_suffix": lambda t, u: t >> pdt.left_join(u, t.a == u.a), "join_user_suffix": lambda t, u: t >> pdt.inner_join(u, t.a == u.a, suffix="_r"),
-        "summarize": lambda t, u: t >> pdt.group_by(t.b) >> pdt.summarize(n=pdt.count()), "grouped": lambda t, u: t >> pdt.group_by(t.b, t.a), "rename_after_join": lambda t, u: t >> pdt.left_join(u, t.a == u.a) >> pdt.rename({"w_u": "ww"}) >> pdt.select(C.ww, t.a),
+        "summarize": lambda t, u: t >> pdt.group_by(t.b) >> pdt.summarize(n=pdt.count()), "grouped": lambda t, u: t >> pdt.group_by(t.b, t.a),
+        "select_twice": lambda t, u: t >> pdt.select(t.c, t.a, t.c, pdt.C.a), "join_suffix_vs_right_column": lambda t, u: (lambda r: t >> pdt.inner_join(r, t.a == r.a))(u >> pdt.mutate(a_u=u.w) >> pdt.select(u.a, pdt.C.a_u) >> pdt.alias("u")), "rename_after_join": lambda t, u: t >> pdt.left_join(u, t.a == u.a) >> pdt.rename({"w_u": "ww"}) >> pdt.select(C.ww, t.a),
     }
     rowsets = {"all": lambda x: x, "none": lambda x: x >> pdt.filter(pdt.lit(1) == 2) if False else x >> pdt.slice_head(0), "one": lambda x: x >> pdt.slice_head(1)}
     with warnings.catch_warnings():
@@ -571,7 +572,7 @@ def obligations(tier):
     obs.append(Obligation("C11/M11/special_names", "M11", "column names that are special strings (quotes, keywords, metacharacters, expression look-alikes): the exported frame has the reported columns (native)", m11_run,
                           functions=[H.fn_info(H.polars_backend.compile_ast), H.fn_info(H.sql_backend.SqlImpl.compile_ast)], bounded="23 names x 6 pipelines x 2 backends", carveouts={"regex_names": "the names `*` and ^...$ (read as a wildcard / regular expression by polars)"}))
     obs.append(Obligation("C11/M10/printing", "M10", "str(table) shows the columns columns() reports, also for empty and one-row results (native)", m10_run, functions=[H.fn_info(pdt._internal.pipe.table.Table.__str__), H.fn_info(pdt._internal.pipe.table.get_head_tail)],
-                          bounded="10 pipelines (one grouped) x 3 result sizes x 2 backends"))
+                          bounded="12 pipelines (one grouped) x 3 result sizes x 2 backends"))
     obs.append(Obligation("C11/M7/caller_containers", "M7", "metadata and frame stay in agreement when the caller changes a dict / list it passed to a verb afterwards (native)", c10.f3_run,
                           functions=[H.fn_info(verbs_mod.rename), H.fn_info(verbs_mod.join)], bounded="11 call shapes x 2 backends (native execution)"))
     return obs
@@ -582,6 +583,7 @@ ASSUMPTIONS = [
     "table width is bounded (<= 3 columns per table in the inductive step); column names are arbitrary strings; the step is proved for an arbitrary pre-state satisfying M1/J/P, i.e. for all verb histories by induction",
     "column names are not one of the four dunder names Table.__getattr__ reserves (__copy__, __deepcopy__, __setstate__, __getstate__) nor `self` / `table` (Python keyword-argument clash inside mutate / polars with_columns)",
     "A-uuid: names generated from a fresh uuid (hidden-column renaming) differ from every existing name; uuid1() values are fresh",
+    "A-case: symbolic column names contain no upper-case letters, so the case-insensitive collision handling of SQL subquery column names coincides with equality (names that differ only in case are exercised natively, C16/X9)",
     "LazyFrame model (pdtv/lfmodel.py): rename is simultaneous, with_columns/select evaluate against the input frame, unknown or duplicate output columns raise at execution",
 ]
 
